@@ -577,6 +577,12 @@ def apply_op(SG, name, xs, args):
     if name == "bce": return sg.binary_cross_entropy(xs[0], xs[1])
     if name == "nll_loss": return sg.nll_loss(xs[0], SG.Tensor(np.array(a["labels"], dtype=np.int64)))
     if name == "cross_entropy": return sg.cross_entropy(xs[0], SG.Tensor(np.array(a["labels"], dtype=np.int64)))
+    if name == "nll_loss_t": return sg.nll_loss(xs[0], xs[1])
+    if name == "cross_entropy_t": return sg.cross_entropy(xs[0], xs[1])
+    if name == "batch_norm_run":
+        # xs = x, running_mean, running_var [, weight, bias]
+        w, b = (xs[3], xs[4]) if len(xs) > 3 else (None, None)
+        return sg.batch_norm(xs[0], w, b, xs[1], xs[2], a["training"], a["momentum"], 1e-5)
     if name == "linear": return sg.linear(xs[0], xs[1], xs[2] if len(xs) > 2 else None)
     if name in ("max_pool1d", "avg_pool1d", "max_pool2d", "avg_pool2d"):
         tup = lambda v: tuple(v) if isinstance(v, list) else v
